@@ -165,3 +165,19 @@ Lemma instances_independent_l : forall tbl h,
   Forall (fun cl => good_call (fst cl) (snd cl)) h ->
   Forall2 (answer_ok tbl) h (run_cached tbl [] h).
 Proof. intros tbl h H. apply run_cached_sound; [apply cache_ok_empty | exact H]. Qed.
+
+(* when clone_ast_node is the identity on every instance, the cached path answers exactly what the live path answers *)
+Lemma run_cached_exact_l : forall tbl h,
+  (forall fn ta i, instantiate (tbl fn) ta = Ok i -> clone i = i) ->
+  Forall (fun cl => good_call (fst cl) (snd cl)) h ->
+  run_cached tbl [] h = run_pinned tbl [] h.
+Proof.
+  intros tbl h Hid Hg. pose proof (instances_independent_l tbl h Hg) as H.
+  rewrite run_pinned_spec. revert H. generalize (run_cached tbl [] h). clear Hg.
+  induction h as [|cl r IH]; intros l H; inversion H; subst; simpl; [reflexivity|].
+  f_equal; [|apply IH; assumption].
+  match goal with Ha : answer_ok _ _ _ |- _ => unfold answer_ok in Ha end.
+  destruct y as [x|e].
+  - destruct H2 as [i [Hi [Hx|Hx]]]; subst x; rewrite Hi; [reflexivity|]. rewrite (Hid _ _ _ Hi). reflexivity.
+  - symmetry. exact H2.
+Qed.
